@@ -395,6 +395,22 @@ def sel_text(b, select, **kw):
     return bqlgen.render_select(q)
 
 
+def alias_some(g, sel, outnames, group, p=0.2):
+    """rename some plainly projected bindings with an outer AS alias (ORDER BY / GROUP BY / HAVING then
+    refer to the alias); returns (sel, outnames, group)"""
+    sel, outnames = list(sel), list(outnames)
+    group = list(group) if group else group
+    for i, item in enumerate(sel):
+        if " " in item or g.rng.random() >= p:
+            continue
+        al = "?o%d" % i
+        sel[i] = "%s AS %s" % (item, al)
+        if group:
+            group = [al if x == outnames[i] else x for x in group]
+        outnames[i] = al
+    return sel, outnames, group
+
+
 class Batch:
     """collects driver cases; after run() results are looked up by handle"""
 
@@ -472,9 +488,17 @@ def check_group(v, tier, d):
         # base query projects keys + aggregated inputs (deduplicated), grouped query in output order
         inputs = keys + [x for x in dict.fromkeys(a[1] for a in aggs)]
         sel, outnames, spec = [], [], []
-        for k in keys:
-            sel.append(k)
-            outnames.append(k)
+        gnames = []
+        for ki, k in enumerate(keys):
+            if g.rng.random() < 0.25:   # grouping by an alias of the projection
+                al = "?k%d" % ki
+                sel.append("%s AS %s" % (k, al))
+                outnames.append(al)
+                gnames.append(al)
+            else:
+                sel.append(k)
+                outnames.append(k)
+                gnames.append(k)
             spec.append({"op": "key", "i": inputs.index(k) + 1})
         for j, (op, x) in enumerate(aggs):
             al = "?g%d" % j
@@ -487,7 +511,7 @@ def check_group(v, tier, d):
             g.rng.shuffle(perm)
             sel, outnames, spec = [sel[i] for i in perm], [outnames[i] for i in perm], [spec[i] for i in perm]
         hb = b.add(base["graphs"], sel_text(base, inputs))
-        hg = b.add(base["graphs"], sel_text(base, sel, group=keys))
+        hg = b.add(base["graphs"], sel_text(base, sel, group=gnames))
         plans.append((base, inputs, keys, outnames, spec, hb, hg))
     b.run(d, "C11")
     events, meta, stats = [], [], {"skipped_perr": 0}
@@ -516,7 +540,7 @@ def check_group(v, tier, d):
                   "samples": [{"base": b.cases[m["handles"][0]]["text"], "grouped": b.cases[m["handles"][1]]["text"],
                                "rows": b.res[m["handles"][1]]["rows"][:3]} for m in meta[:3]]})
     v.assumptions += ["the grouped result is judged against Group() of the RECORDED ungrouped result of the same pattern (C03 defects do not leak in)",
-                      "sums are judged only when all summed cells of every group are of one numeric kind (quarters, |v| < 2^30)"]
+                      "sums are judged only when all summed cells of the column are of one numeric kind (float64 cells are exact multiples of 2^-24)"]
 
 
 # ------------------------------------------------------------------------------------------ C12 ORDER BY / LIMIT
@@ -539,6 +563,7 @@ def check_order(v, tier, d):
             sel = [k, "COUNT(%s) AS ?n" % x]
             outnames = [k, "?n"]
             group = [k]
+        sel, outnames, group = alias_some(g, sel, outnames, group)
         nkeys = g.rng.choice([0, 1, 1, 1, 2, 2, 3])
         order = []
         for _k in range(nkeys):
@@ -691,6 +716,7 @@ def check_having(v, tier, d):
             k = g.rng.choice(names)
             x = g.rng.choice([y for y in names if y != k])
             sel, outnames, group = [k, "COUNT(%s) AS ?n" % x], [k, "?n"], [k]
+        sel, outnames, group = alias_some(g, sel, outnames, group)
         kw = {"group": group} if group else {}
         bases.append((base, sel, outnames, kw, b1.add(base["graphs"], sel_text(base, sel, **kw))))
     b1.run(d, "C13a")
@@ -755,6 +781,20 @@ def check_meta(v, tier, d):
     plans = []
     for _ in range(n):
         base = clean_base(g, max_clauses=3, p_alias=0.15)
+        if g.rng.random() < 0.3:
+            # add a fully specified clause (a stored triple, sometimes a missing one), with or without
+            # an alias, at a random position: it holds or not whatever its position
+            content = base["content"]
+            if content and g.rng.random() < 0.8:
+                t = bqlu.TRIPLES[g.rng.choice(content) - 1]
+            else:
+                t = bqlu.TRIPLES[g.rng.randrange(len(bqlu.TRIPLES))]
+            fc = bqlgen.clause(bqlgen.S(c=t[0]), bqlgen.P(c=t[1]), bqlgen.O(cell=t[2]))
+            if g.rng.random() < 0.3:
+                fc["s"]["id"] = "?fs"
+            cls = list(base["clauses"])
+            cls.insert(g.rng.randint(0, len(cls)), fc)
+            base = dict(base, clauses=cls, names=bqlgen.pattern_names(cls))
         names = base["names"]
         content = base["content"]
         one = [content]
